@@ -1036,6 +1036,15 @@ impl FseEncoder {
     
     /// Merge compressed blocks into final output
     fn merge_compressed_blocks(&self, chunks: Vec<Vec<u8>>) -> Result<Vec<u8>> {
+        // The container has no magic: the decoder recognises it only for 2..=64 blocks
+        // (see decompress). A larger block count would be written but could never be read back.
+        if chunks.len() > 64 {
+            return Err(ZiporaError::invalid_data(format!(
+                "FSE multi-block container supports at most 64 blocks, got {}",
+                chunks.len()
+            )));
+        }
+
         let mut output = Vec::new();
         
         // Write header with number of blocks
